@@ -46,6 +46,11 @@ def run_accepts(case):
         if got is not want:
             raise Fail("cfg_accepts_word", "cfg_accepts_word(%r) = %r, but S %s %r" % (w, got, "derives" if want else "does not derive", w), word=w)
         acc += want
+    # words with a character that is not a terminal (among them the characters used to write the empty word) are not derivable
+    for w in case.get("foreign", []):
+        got = lib(cfg_accepts_word, G, w)
+        if got is not False:
+            raise Fail("cfg_accepts_word_foreign", "cfg_accepts_word(%r) = %r, but the word contains a character that is not a terminal of the grammar" % (w, got), word=w)
     if BC.snap_cfg(G) != before:
         raise Fail("mutates_argument", "cfg_accepts_word changed the grammar")
     alt = case.get("alt_start")
@@ -96,7 +101,15 @@ def accept_cases(draw, tier):
         spec = draw(GC.cfg_specs(max_vars=4 if tier == "quick" else 5, terms=("a", "b") if two else ("a",), simple=draw(st.booleans()),
                                  max_len=6 if draw(st.integers(0, 3)) == 0 else 4))
     alt = spec["V"][draw(st.integers(0, len(spec["V"]) - 1))] if draw(st.booleans()) else None
-    return {"cfg": spec, "L": 4 if two else 6, "alt_start": alt, "id_offset": draw(st.integers(0, 14))}
+    foreign = []
+    if draw(st.booleans()):
+        ws = sorted(w for w in RC.lang_upto(spec, 4) if w)[:6] or ["a"]
+        for _ in range(draw(st.integers(1, 3))):
+            w = ws[draw(st.integers(0, len(ws) - 1))]
+            ch = draw(st.sampled_from([c for c in ["_", "ε", "z", " "] if c not in spec["T"]]))
+            i = draw(st.integers(0, len(w)))
+            foreign.append(w[:i] + ch + w[i:])
+    return {"cfg": spec, "L": 4 if two else 6, "alt_start": alt, "id_offset": draw(st.integers(0, 14)), "foreign": foreign}
 
 
 @st.composite
